@@ -363,6 +363,9 @@ Qed.
 Lemma lines_cons a b : Forall noeol a -> lines (a ++ [10%N] ++ b) = a :: lines b.
 Proof. intros Ha. unfold lines. simpl app. rewrite lines_aux_line by auto. reflexivity. Qed.
 
+Lemma lines_cons' a b : Forall noeol a -> lines (a ++ 10%N :: b) = a :: lines b.
+Proof. apply lines_cons. Qed.
+
 Lemma lines_concat rows : Forall (Forall noeol) rows ->
   lines (concat (map (fun r => r ++ [10%N]) rows)) = rows.
 Proof.
@@ -537,3 +540,275 @@ Proof.
   { apply N.ltb_lt. change 18446744073709551616%N with (2 ^ 64)%N. assumption. }
   rewrite Hlt, Nat2N.id. reflexivity.
 Qed.
+
+(* ---- generic list facts used by the round trips ---- *)
+Lemma combine_seq_nth {A} (d : A) (l : list A) : forall s,
+  combine (seq s (length l)) l = map (fun i => (i, nth (i - s) l d)) (seq s (length l)).
+Proof.
+  induction l as [|x l IH]; intros s; [reflexivity|].
+  cbn [length seq combine map]. rewrite Nat.sub_diag. cbn [nth]. f_equal.
+  rewrite IH. apply map_ext_in. intros i Hi. apply in_seq in Hi.
+  replace (i - s) with (S (i - S s)) by lia. reflexivity.
+Qed.
+
+Lemma combine_map_self {A B} (h : A -> B) (l : list A) :
+  combine l (map h l) = map (fun i => (i, h i)) l.
+Proof. induction l as [|x l IH]; simpl; [reflexivity|]. f_equal. assumption. Qed.
+
+Lemma map_nth_firstn {A} (d : A) (l : list A) : forall n, n <= length l ->
+  map (fun j => nth j l d) (seq 0 n) = firstn n l.
+Proof.
+  induction l as [|x l IH]; intros n Hn.
+  - simpl in Hn. assert (n = 0) by lia. subst. reflexivity.
+  - destruct n as [|n]; [reflexivity|]. cbn [seq map firstn nth]. f_equal.
+    rewrite <- seq_shift, map_map. cbn [nth]. apply IH. simpl in Hn. lia.
+Qed.
+
+Lemma nth_skipn_add {A} (d : A) : forall a (l : list A) j, nth j (skipn a l) d = nth (a + j) l d.
+Proof.
+  induction a as [|a IH]; intros l j; [reflexivity|].
+  destruct l as [|x l]; simpl; [destruct j; reflexivity|]. apply IH.
+Qed.
+
+Lemma map_nth_segment {A} (d : A) (l : list A) a n : a + n <= length l ->
+  map (fun j => nth (a + j) l d) (seq 0 n) = firstn n (skipn a l).
+Proof.
+  intros H. rewrite <- map_nth_firstn with (d := d) by (rewrite skipn_length; lia).
+  apply map_ext. intros j. rewrite nth_skipn_add. reflexivity.
+Qed.
+
+Lemma firstn_add {A} : forall a b (l : list A), firstn (a + b) l = firstn a l ++ firstn b (skipn a l).
+Proof.
+  induction a as [|a IH]; intros b l; [reflexivity|].
+  destruct l as [|x l]; simpl; [destruct b; reflexivity|]. f_equal. apply IH.
+Qed.
+
+Lemma firstn_seq0 i n : i <= n -> firstn i (seq 0 n) = seq 0 i.
+Proof.
+  intros H. replace n with (i + (n - i)) by lia. rewrite seq_app.
+  rewrite firstn_app, seq_length, Nat.sub_diag. simpl. rewrite app_nil_r.
+  rewrite <- (seq_length i 0) at 1. apply firstn_all.
+Qed.
+
+Lemma join_r_sep_concat {A} (sep : list (@rch A)) l : l <> [] ->
+  join_r sep l ++ sep = concat (map (fun r => r ++ sep) l).
+Proof.
+  induction l as [|x l IH]; intros Hne; [contradiction|]. destruct l as [|y l].
+  - simpl. rewrite app_nil_r. reflexivity.
+  - change (join_r sep (x :: y :: l)) with (x ++ sep ++ join_r sep (y :: l)).
+    rewrite <- !app_assoc. rewrite IH by discriminate. cbn [map concat]. rewrite <- !app_assoc. reflexivity.
+Qed.
+
+(* ================================================================================================ *)
+(* Part 3: round trips                                                                               *)
+(* ================================================================================================ *)
+Section RoundTrip.
+Context {L : Type}.
+Variable O : LenOps L.
+Variable print_cell : L -> str.
+Variable parse_cell : str -> option L.
+Variable ok_cell : L -> Prop.
+Hypothesis H1 : forall l, ok_cell l -> parse_cell (print_cell l) = Some l.
+Hypothesis H2 : forall l, print_cell l <> [] /\ Forall (fun c => is_ws c = false) (print_cell l).
+Hypothesis Hz : ok_cell (l0 O).
+Hypothesis Heq : forall a b, ok_cell a -> ok_cell b -> (leqb O a b = true <-> a = b).
+Notation dmat := (@dmat L).
+
+Definition flatten (s : @rstr L) : str :=
+  flat_map (fun x => match x with C c => [c] | Lv l => print_cell l end) s.
+
+Lemma flatten_app a b : flatten (a ++ b) = flatten a ++ flatten b.
+Proof. apply flat_map_app. Qed.
+Lemma flatten_lit s : flatten (lit s) = s.
+Proof. unfold flatten, lit. induction s; simpl; auto. f_equal; auto. Qed.
+Lemma flatten_nl s : flatten (nl :: s) = 10%N :: flatten s.
+Proof. reflexivity. Qed.
+Lemma flatten_concat ls : flatten (concat ls) = concat (map flatten ls).
+Proof. induction ls as [|x ls IH]; simpl; [reflexivity|]. rewrite flatten_app, IH. reflexivity. Qed.
+
+Lemma print_tok_ok v : tok_ok (print_cell v).
+Proof. apply H2. Qed.
+
+Lemma flatten_join_cells vs :
+  flatten (join_r [sp; sp] (map (fun v => [Lv v]) vs)) = join_sp (map print_cell vs).
+Proof.
+  induction vs as [|v vs IH]; [reflexivity|]. destruct vs as [|w vs].
+  - simpl. rewrite app_nil_r. reflexivity.
+  - change (join_r [sp; sp] (map (fun v => [Lv v]) (v :: w :: vs)))
+      with ([Lv v] ++ [sp; sp] ++ join_r [sp; sp] (map (fun v => [@Lv L v]) (w :: vs))).
+    change (join_sp (map print_cell (v :: w :: vs)))
+      with (print_cell v ++ [32%N; 32%N] ++ join_sp (map print_cell (w :: vs))).
+    rewrite !flatten_app, IH. simpl. rewrite app_nil_r. reflexivity.
+Qed.
+
+(* a data row as the writer produces it *)
+Definition rrow (name : str) (vs : list L) : @rstr L :=
+  lit name ++ match join_r [sp; sp] (map (fun v => [Lv v]) vs) with
+              | [] => []
+              | _ => [sp; sp; sp; sp] ++ join_r [sp; sp] (map (fun v => [Lv v]) vs)
+              end.
+Definition srow (name : str) (vs : list L) : str := srow_s name (map print_cell vs).
+
+Lemma flatten_rrow name vs : flatten (rrow name vs) = srow name vs.
+Proof.
+  unfold rrow, srow, srow_s. rewrite flatten_app, flatten_lit. f_equal.
+  destruct vs as [|v vs]; [reflexivity|].
+  pose proof (flatten_join_cells (v :: vs)) as E.
+  destruct vs as [|w vs].
+  - simpl. rewrite app_nil_r. reflexivity.
+  - change (join_r [sp; sp] (map (fun v => [Lv v]) (v :: w :: vs)))
+      with (@Lv L v :: ([sp; sp] ++ join_r [sp; sp] (map (fun v => [@Lv L v]) (w :: vs)))) in *.
+    cbv iota. rewrite flatten_app, E. reflexivity.
+Qed.
+
+(* ---- the writer in closed form ---- *)
+Definition wcell (cells : list L) (i j : nat) : L :=
+  if Nat.eqb i j then l0 O else nth (tril_idx i j) cells (l0 O).
+Definition lim (sq : bool) (n i : nat) : nat := if sq then n else i.
+Definition wrow (m : dmat) (sq : bool) (i : nat) : list L :=
+  map (wcell (mcells m) i) (seq 0 (lim sq (msize m) i)).
+
+Definition wf_m (m : dmat) : Prop :=
+  msize m = length (mtaxa m) /\ length (mcells m) = msize m * (msize m - 1) / 2.
+
+Lemma lim_le sq n i : i < n -> lim sq n i <= n.
+Proof. destruct sq; simpl; lia. Qed.
+
+Lemma le_lim sq n i : i < n -> i <= lim sq n i.
+Proof. destruct sq; simpl; lia. Qed.
+
+Lemma writer_spec m sq : wf_m m ->
+  to_phylip O m sq =
+  Ok (lit (dec_of_nat (msize m)) ++ [nl] ++
+      join_r [nl] (map (fun i => rrow (nth i (mtaxa m) []) (wrow m sq i)) (seq 0 (msize m))) ++ [nl]).
+Proof.
+  intros [Hs Hc]. unfold to_phylip.
+  rewrite (mapM_map _ (fun p => rrow (snd p) (wrow m sq (fst p)))).
+  - cbn [bind]. rewrite (combine_seq_nth ([] : str) (mtaxa m) 0), map_map, <- Hs.
+    rewrite (map_ext _ (fun i => rrow (nth i (mtaxa m) []) (wrow m sq i))); [reflexivity|].
+    intros i. cbn [fst snd]. rewrite Nat.sub_0_r. reflexivity.
+  - intros [i name] Hin. apply in_combine_l in Hin. apply in_seq in Hin. cbn [fst snd].
+    rewrite <- Hs in Hin.
+    rewrite (mapM_map _ (fun j => [Lv (wcell (mcells m) i j)])).
+    + simpl. unfold rrow, wrow, lim. rewrite map_map. reflexivity.
+    + intros j Hj. apply in_seq in Hj.
+      assert (j < msize m).
+      { pose proof (lim_le sq (msize m) i). unfold lim in *. destruct sq; lia. }
+      unfold wcell. destruct (Nat.eqb i j) eqn:E; [reflexivity|].
+      unfold tril_to_vec_index. rewrite E.
+      rewrite (proj2 (Nat.leb_gt (msize m) i)) by lia.
+      rewrite (proj2 (Nat.leb_gt (msize m) j)) by lia. simpl.
+      apply Nat.eqb_neq in E.
+      rewrite (nth_error_nth' (mcells m) (l0 O)); [reflexivity|].
+      rewrite Hc. apply tril_lt_any; lia.
+Qed.
+
+Definition names_ok (taxa : list str) : Prop := Forall tok_ok taxa.
+
+Lemma nth_names_ok taxa i : names_ok taxa -> i < length taxa -> tok_ok (nth i taxa []).
+Proof. intros H Hi. eapply Forall_forall; [exact H|]. apply nth_In. assumption. Qed.
+
+Lemma print_all_ok vs : Forall tok_ok (map print_cell vs).
+Proof. apply Forall_forall. intros x Hx. apply in_map_iff in Hx. destruct Hx as (v & <- & _). apply print_tok_ok. Qed.
+
+(* lines of the writer output = size line :: data rows *)
+Lemma writer_lines m sq txt : wf_m m -> 1 <= msize m -> names_ok (mtaxa m) ->
+  to_phylip O m sq = Ok txt ->
+  lines (flatten txt) =
+  dec_of_nat (msize m) :: map (fun i => srow (nth i (mtaxa m) []) (wrow m sq i)) (seq 0 (msize m)).
+Proof.
+  intros Hwf Hn Hnames Hw. rewrite (writer_spec m sq Hwf) in Hw. injection Hw as Hw. subst txt.
+  rewrite join_r_sep_concat.
+  2:{ destruct (msize m); [lia|]. simpl. discriminate. }
+  change ([nl] ++ ?x) with (nl :: x).
+  rewrite !flatten_app, flatten_lit, flatten_nl, flatten_concat, !map_map.
+  rewrite lines_cons' by apply dec_of_nat_noeol. f_equal.
+  rewrite (map_ext _ (fun i => srow (nth i (mtaxa m) []) (wrow m sq i) ++ [10%N])).
+  2:{ intros i. rewrite flatten_app, flatten_rrow. reflexivity. }
+  rewrite <- (map_map (fun i => srow (nth i (mtaxa m) []) (wrow m sq i)) (fun r => r ++ [10%N])).
+  apply lines_concat. apply Forall_forall. intros r Hr. apply in_map_iff in Hr.
+  destruct Hr as (i & <- & Hi). apply in_seq in Hi. apply srow_noeol.
+  - apply nth_names_ok; [assumption|]. destruct Hwf as [Hs _]. lia.
+  - apply print_all_ok.
+Qed.
+
+(* ---- reading a written row ---- *)
+Lemma parse_cells_print vs : Forall ok_cell vs -> forall k,
+  parse_cells parse_cell (map print_cell vs) k = Ok (match k with Some k => firstn k vs | None => vs end).
+Proof.
+  induction 1 as [|v vs Hv Hvs IH]; intros k.
+  - destruct k as [[|k]|]; reflexivity.
+  - destruct k as [[|k]|]; cbn [map parse_cells]; try reflexivity; rewrite (H1 v Hv); rewrite IH; reflexivity.
+Qed.
+
+Lemma read_row_print name vs i t : tok_ok name -> Forall ok_cell vs ->
+  read_phylip_row parse_cell (srow name vs) i t = Ok (name, if t then firstn i vs else vs).
+Proof.
+  intros Hn Hvs. unfold read_phylip_row, srow.
+  rewrite split_ws_row by (try assumption; apply print_all_ok).
+  rewrite parse_cells_print by assumption. destruct t; reflexivity.
+Qed.
+
+Lemma wcell_ok cells i j : Forall ok_cell cells -> ok_cell (wcell cells i j).
+Proof.
+  intros H. unfold wcell. destruct (Nat.eqb i j); [assumption|].
+  destruct (nth_in_or_default (tril_idx i j) cells (l0 O)) as [Hin| ->]; [|assumption].
+  eapply Forall_forall; eassumption.
+Qed.
+
+Lemma wrow_ok m sq i : Forall ok_cell (mcells m) -> Forall ok_cell (wrow m sq i).
+Proof.
+  intros H. apply Forall_forall. intros x Hx. apply in_map_iff in Hx. destruct Hx as (j & <- & _).
+  apply wcell_ok. assumption.
+Qed.
+
+(* the lower triangle, row by row, is the cell vector *)
+Lemma tril_concat cells : forall n, T (n - 1) <= length cells ->
+  concat (map (fun i => map (wcell cells i) (seq 0 i)) (seq 0 n)) = firstn (T (n - 1)) cells.
+Proof.
+  induction n as [|n IH]; intros Hn; [reflexivity|].
+  rewrite seq_S, map_app, concat_app. cbn [map concat plus]. rewrite app_nil_r.
+  assert (E : T (S n - 1) = T (n - 1) + n).
+  { destruct n as [|k]; [reflexivity|]. replace (S (S k) - 1) with (S k) by lia.
+    replace (S k - 1) with k by lia. apply T_S. }
+  rewrite E in *. rewrite IH by lia. rewrite firstn_add. f_equal.
+  rewrite <- map_nth_segment with (d := l0 O) by assumption.
+  apply map_ext_in. intros j Hj. apply in_seq in Hj. unfold wcell.
+  rewrite (proj2 (Nat.eqb_neq n j)) by lia. rewrite tril_idx_lt by lia. reflexivity.
+Qed.
+
+Lemma tril_concat_full cells n : length cells = n * (n - 1) / 2 ->
+  concat (map (fun i => map (wcell cells i) (seq 0 i)) (seq 0 n)) = cells.
+Proof.
+  intros H. rewrite tri_size in H. rewrite tril_concat by lia. rewrite <- H. apply firstn_all.
+Qed.
+
+Lemma map_nth_all {A} (d : A) (l : list A) : map (fun i => nth i l d) (seq 0 (length l)) = l.
+Proof. rewrite map_nth_firstn by apply le_n. apply firstn_all. Qed.
+
+Definition rt_pre (m : dmat) : Prop :=
+  wf_m m /\ 1 <= msize m /\ names_ok (mtaxa m) /\ Forall ok_cell (mcells m) /\
+  (N.of_nat (msize m) < 2 ^ 64)%N.
+
+(* the triangular reader on either writer output *)
+Lemma rt_tril_any m sq txt : rt_pre m ->
+  to_phylip O m sq = Ok txt -> from_phylip_tril parse_cell (flatten txt) = Ok m.
+Proof.
+  intros (Hwf & Hn & Hnames & Hcells & Hb) Hw.
+  rewrite tril_unfold. rewrite (writer_lines m sq txt Hwf Hn Hnames Hw).
+  rewrite parse_usize_dec by assumption.
+  rewrite map_length, seq_length, combine_map_self.
+  destruct Hwf as [Hs Hc].
+  rewrite (mapM_map _ (fun p => (nth (fst p) (mtaxa m) [], map (wcell (mcells m) (fst p)) (seq 0 (fst p))))).
+  - cbn [bind]. rewrite !map_map. cbn [fst snd].
+    rewrite Hs in *. rewrite map_nth_all. rewrite Nat.eqb_refl. cbn [negb].
+    rewrite tril_concat_full by assumption. rewrite Hc, Nat.eqb_refl. cbn [negb].
+    destruct m; simpl in *. subst. reflexivity.
+  - intros p Hp. apply in_map_iff in Hp. destruct Hp as (i & <- & Hi). apply in_seq in Hi.
+    unfold tril_row. cbn [fst snd].
+    rewrite read_row_print by (try (apply nth_names_ok; [assumption|lia]); apply wrow_ok; assumption).
+    cbn [bind]. unfold wrow. rewrite firstn_map, firstn_seq0 by (apply le_lim; lia).
+    rewrite map_length, seq_length, Nat.eqb_refl. reflexivity.
+Qed.
+
+End RoundTrip.
